@@ -208,7 +208,7 @@ func normPanic(r any) string {
 }
 
 // bufStep runs one op on b and renders everything observable as a string.
-func bufStep(b bufAPI, op *scen.BufOp) (out string) {
+func bufStep(b bufAPI, op *scen.BufOp, keep func(string)) (out string) {
 	defer func() {
 		if r := recover(); r != nil {
 			out = normPanic(r)
@@ -255,6 +255,7 @@ func bufStep(b bufAPI, op *scen.BufOp) (out string) {
 		return fmt.Sprintf("%q,%v,%s", p, p == nil, normErr(err))
 	case "ReadString":
 		s, err := b.ReadString(byte(op.Delim))
+		keep(s)
 		return fmt.Sprintf("%q,%s", s, normErr(err))
 	case "ReadFrom":
 		r := &faultyReader{steps: op.Peer, left: -1}
@@ -278,7 +279,9 @@ func bufStep(b bufAPI, op *scen.BufOp) (out string) {
 	case "Bytes":
 		return fmt.Sprintf("%q", b.Bytes())
 	case "String":
-		return fmt.Sprintf("%q", b.String())
+		s := b.String()
+		keep(s)
+		return fmt.Sprintf("%q", s)
 	}
 	return "unknown-op"
 }
@@ -309,10 +312,23 @@ func (w *W) runBuf(bs *scen.BufScenario) {
 		w.emitV(scen.Event{K: "bufmis", Op: 0, S: "init"}, map[string]string{"impl": a, "ref": b})
 		return
 	}
+	// strings a call has returned are values: what the buffer does later must not change them (bytes.Buffer copies;
+	// an encoder that hands out a view of its own storage shows later writes through it). Every string returned
+	// is kept next to a copy taken at that moment and looked at again after every later step.
+	type held struct {
+		at   int
+		got  string
+		copy string
+	}
+	var kept []held
 	for i := range bs.Ops {
 		op := &bs.Ops[i]
-		a := bufStep(pc, op)
-		b := bufStep(ref, op)
+		a := bufStep(pc, op, func(s string) {
+			if len(s) > 0 && len(kept) < 64 {
+				kept = append(kept, held{i + 1, s, strings.Clone(s)})
+			}
+		})
+		b := bufStep(ref, op, func(string) {})
 		w.stats["buf.ops"]++
 		if strings.HasPrefix(b, "panic(") {
 			w.stats["buf.ref_panics"]++
@@ -347,6 +363,13 @@ func (w *W) runBuf(bs *scen.BufScenario) {
 		if sa != sb {
 			w.emitV(scen.Event{K: "bufmis", Op: i + 1, S: op.Op + ":state"}, map[string]string{"impl": sa, "ref": sb})
 			return
+		}
+		for _, h := range kept {
+			if h.got != h.copy {
+				w.emitV(scen.Event{K: "bufmis", Op: i + 1, S: op.Op + ":held"}, map[string]string{
+					"impl": fmt.Sprintf("the string returned at step %d now reads %q", h.at, h.got), "ref": fmt.Sprintf("%q (a string is a value)", h.copy)})
+				return
+			}
 		}
 	}
 	w.emit(scen.Event{K: "bufok", N: len(bs.Ops)})
